@@ -101,7 +101,7 @@ func init() {
 			"a malformed line is: odd number of hex digits, a character that is not a hex digit in the hex field (incl. a second separator, which is what a lost terminator produces), no separator, no terminator before end of stream",
 			"lower-case hex digits are not treated as malformed",
 		},
-		Require: []string{"records_decoded", "reader:onebyte", "reader:eof-with-data", "reader:ospipe", "reader:iopipe", "mutant:odd-hex", "mutant:non-hex", "mutant:no-separator", "mutant:no-terminator", "mutant:lost-terminator", "mutant:char-before-terminator", "mutant_reader:bufio", "reader:bufio", "intact_line_after_mutant_decoded"},
+		Require: []string{"records_decoded", "reader:onebyte", "reader:eof-with-data", "reader:ospipe", "reader:iopipe", "mutant:odd-hex", "mutant:non-hex", "mutant:no-separator", "mutant:no-terminator", "mutant:lost-terminator", "mutants_of_long_lines", "mutant:char-before-terminator", "mutant_reader:bufio", "reader:bufio", "intact_line_after_mutant_decoded"},
 		Run:     runC19,
 	})
 }
@@ -263,7 +263,11 @@ func runC19(c *mon.Ctx) {
 			a.msg = a.msg[:40]
 		}
 		x := genRec(r)
-		if len(x.msg) > 30 {
+		if i%8 == 7 {
+			// a long line (the hex field is decoded in pieces above some size): the mutation may sit anywhere
+			x.msg = r.Bytes(r.Pick(1024, 1025, 1500, 2000, 2048, 2049, 3000, 5000))
+			c.Count("mutants_of_long_lines", 1)
+		} else if len(x.msg) > 30 {
 			x.msg = x.msg[:30]
 		}
 		line := refLine(x.ts, x.msg)
